@@ -1,0 +1,58 @@
+//go:build verif
+
+package rcall
+
+// Contracts checked by /verif (vcgo). Comment-only: no executable code.
+// C04: the reverse-call map lists, for each project method, its project callers once per call site and nothing else;
+// every direct caller of the target (other than itself) is an edge line of the reverse chain; generation terminates.
+
+//@ func BuildProjectMethodMap
+//@ ensures forall s string :: {result[s]} result[s] == (DeclD(clzs, len(clzs), s) ? 1 : 0)
+//@ ensures forall s string :: {s in result} (s in result) <==> DeclD(clzs, len(clzs), s)
+//@ loop 1 invariant maps != nil
+//@ loop 1 invariant forall s string :: {maps[s]} {DeclD(clzs, #i, s)} maps[s] == (DeclD(clzs, #i, s) ? 1 : 0)
+//@ loop 1 invariant forall s string :: {s in maps} {DeclD(clzs, #i, s)} (s in maps) <==> DeclD(clzs, #i, s)
+//@ loop 2 invariant maps != nil
+//@ loop 2 invariant forall s string :: {maps[s]} {DeclIn(clz, #i, s)} maps[s] == ((DeclD(clzs, #i1, s) || DeclIn(clz, #i, s)) ? 1 : 0)
+//@ loop 2 invariant forall s string :: {s in maps} {DeclIn(clz, #i, s)} (s in maps) <==> (DeclD(clzs, #i1, s) || DeclIn(clz, #i, s))
+
+// call sites with a receiver (NodeName != "") that resolve to s
+//@ spec rec RSitesC(cs []core_domain.CodeCall, n int, s string) int := n <= 0 ? 0 : RSitesC(cs, n - 1, s) + ((cs[n - 1].NodeName != "" && CallFull(cs[n - 1]) == s) ? 1 : 0)
+//@ spec rec RSitesF(fs []core_domain.CodeFunction, n int, s string) int := n <= 0 ? 0 : RSitesF(fs, n - 1, s) + RSitesC(fs[n - 1].FunctionCalls, len(fs[n - 1].FunctionCalls), s)
+//@ spec rec RSitesD(ds []core_domain.CodeDataStruct, n int, s string) int := n <= 0 ? 0 : RSitesD(ds, n - 1, s) + RSitesF(ds[n - 1].Functions, len(ds[n - 1].Functions), s)
+//@ axiom RSitesC_nonneg: forall cs []core_domain.CodeCall, n int, s string :: {RSitesC(cs, n, s)} RSitesC(cs, n, s) >= 0
+//@ axiom RSitesF_nonneg: forall fs []core_domain.CodeFunction, n int, s string :: {RSitesF(fs, n, s)} RSitesF(fs, n, s) >= 0
+//@ axiom RSitesD_nonneg: forall ds []core_domain.CodeDataStruct, n int, s string :: {RSitesD(ds, n, s)} RSitesD(ds, n, s) >= 0
+
+//@ func BuildMethodCallMap
+//@ ensures forall s string :: {result[s]} len(result[s]) == (projectMaps[s] >= 1 ? RSitesD(dataStructs, len(dataStructs), s) : 0)
+//@ ensures forall s string :: {s in result} (s in result) ==> projectMaps[s] >= 1
+//@ loop 1 invariant methodCallMap != nil
+//@ loop 1 invariant forall s string :: {methodCallMap[s]} {RSitesD(dataStructs, #i, s)} len(methodCallMap[s]) == (projectMaps[s] >= 1 ? RSitesD(dataStructs, #i, s) : 0)
+//@ loop 1 invariant forall s string :: {s in methodCallMap} (s in methodCallMap) ==> projectMaps[s] >= 1
+//@ loop 2 invariant methodCallMap != nil
+//@ loop 2 invariant forall s string :: {methodCallMap[s]} {RSitesF(clz.Functions, #i, s)} len(methodCallMap[s]) == (projectMaps[s] >= 1 ? RSitesD(dataStructs, #i1, s) + RSitesF(clz.Functions, #i, s) : 0)
+//@ loop 2 invariant forall s string :: {s in methodCallMap} (s in methodCallMap) ==> projectMaps[s] >= 1
+//@ loop 3 invariant methodCallMap != nil
+//@ loop 3 invariant forall s string :: {methodCallMap[s]} {RSitesC(method.FunctionCalls, #i, s)} len(methodCallMap[s]) == (projectMaps[s] >= 1 ?
+//@     RSitesD(dataStructs, #i1, s) + RSitesF(clz.Functions, #i2, s) + RSitesC(method.FunctionCalls, #i, s) : 0)
+//@ loop 3 invariant forall s string :: {s in methodCallMap} (s in methodCallMap) ==> projectMaps[s] >= 1
+
+// the reverse chain: one line `"caller" -> "callee";` per edge, names escaped as in the forward graph
+//@ spec REL(child string, f string) string := "\"" + Esc(child) + "\" -> \"" + Esc(f) + "\";\n"
+
+//@ func RCallGraph.BuildRCallChain
+//@ modifies loopCount, lastChild
+//@ decreases loopDepth - loopCount
+//@ ensures loopCount >= old(loopCount)
+//@ ensures LinesEnd(result)
+//@ ensures old(loopCount) < loopDepth ==> (forall i int :: {methodMap[funcName][i]} 0 <= i && i < len(methodMap[funcName]) && methodMap[funcName][i] != funcName ==>
+//@    HasLine(result, REL(methodMap[funcName][i], funcName)))
+//@ loop 1 invariant loopCount >= old(loopCount) + 1
+//@ loop 1 invariant LinesEnd(arrayResult)
+//@ loop 1 invariant forall j int :: {methodMap[funcName][j]} 0 <= j && j < #i && methodMap[funcName][j] != funcName ==> HasLine(arrayResult, REL(methodMap[funcName][j], funcName))
+//@ loop 1 assert IsPrefix(arrayResult@pre, arrayResult)
+//@ loop 1 assert methodMap[funcName][#i - 1] != funcName ==> HasLine(arrayResult, REL(methodMap[funcName][#i - 1], funcName))
+
+//@ func ToGraphviz
+//@ ensures result == "digraph G {\n" + chain + "}\n"
